@@ -27,6 +27,11 @@ type impSpec struct {
 	dirImp  int     // -1 none; file index whose directory is imported (as a directory) by file 0
 	dotRoot bool    // the root file is named through a non-clean absolute path (/x/./main.yaml)
 	style   int     // naming of files and directories: 0 plain, 1 names beginning with "http", 2 names with spaces and symbols
+	// exts[i] (when set): extension of file i - ".yaml" (default), ".yml", ".json", ".toml"; the content is written in
+	// that format. A directory import reads the *.yaml files of the directory only.
+	exts []string
+	// dirFirst: the directory import of file 0 comes BEFORE its file imports (default: after them)
+	dirFirst bool
 	// remoteFrom > 0: the files remoteFrom..n-1 are not on disk but served over HTTP (loopback) and imported by
 	// URL; a remote file can only import remote files (a relative import inside a URL has no meaning), so edges
 	// from a remote file to a local one are dropped by normalise()
@@ -73,11 +78,22 @@ var importDirStyles = [][]string{
 	{".", "a dir", "a dir/b#1", "c@x", "a dir", "c@x/D"},
 	importDirs,                       // style 3: plain names, every file is a symbolic link to a file kept elsewhere
 	{".", "a", "a/b", "c", "a", "C"}, // style 4: files and directories whose paths differ only in letter case
+	{".", "conf", "conf", "conf", "conf/sub", "conf"}, // style 5: most files share one directory
 }
 
 func (s impSpec) dirOf(i int) string { return importDirStyles[s.style][i] }
 
+func (s impSpec) extOf(i int) string {
+	if s.exts != nil && s.exts[i] != "" {
+		return s.exts[i]
+	}
+	return ".yaml"
+}
+
 func (s impSpec) baseOf(i int) string {
+	if s.exts != nil {
+		return fmt.Sprintf("f%d%s", i, s.extOf(i))
+	}
 	switch s.style {
 	case 1:
 		return fmt.Sprintf("http-f%d.yaml", i)
@@ -118,6 +134,11 @@ func (s impSpec) materialise(root string) {
 	for i := 0; i < s.n; i++ {
 		if i == s.broken && s.kind == "missing" {
 			continue // a remote file that is missing is answered with 404
+		}
+		if i == s.broken && s.kind == "dangling" {
+			// the directory entry exists, what it points to does not
+			os.Symlink(filepath.Join(root, "gone", s.baseOf(i)), s.file(root, i))
+			continue
 		}
 		var b strings.Builder
 		if i == s.broken && s.kind == "unparsable" {
@@ -164,7 +185,27 @@ func (s impSpec) materialise(root string) {
 		}
 		if i == 0 && s.dirImp >= 0 {
 			rel, _ := filepath.Rel(filepath.Dir(s.file(root, 0)), filepath.Dir(s.file(root, s.dirImp)))
-			imps = append(imps, rel)
+			if s.dirFirst {
+				imps = append([]string{rel}, imps...)
+			} else {
+				imps = append(imps, rel)
+			}
+		}
+		if !s.isRemote(i) && s.extOf(i) == ".json" {
+			var q []string
+			for _, p := range imps {
+				q = append(q, fmt.Sprintf("%q", p))
+			}
+			os.WriteFile(s.file(root, i), []byte(fmt.Sprintf(`{"import": [%s], "tasks": {"t%d": {"command": ["echo f%d"]}}}`, strings.Join(q, ", "), i, i)), 0644)
+			continue
+		}
+		if !s.isRemote(i) && s.extOf(i) == ".toml" {
+			var q []string
+			for _, p := range imps {
+				q = append(q, fmt.Sprintf("%q", p))
+			}
+			os.WriteFile(s.file(root, i), []byte(fmt.Sprintf("import = [%s]\n[tasks.t%d]\ncommand = [\"echo f%d\"]\n", strings.Join(q, ", "), i, i)), 0644)
+			continue
 		}
 		if len(imps) > 0 {
 			b.WriteString("import:\n")
@@ -201,7 +242,7 @@ func (s impSpec) reachable() []int {
 		}
 		if i == 0 && s.dirImp >= 0 {
 			for j := 0; j < s.n; j++ {
-				if s.dirOf(j) == s.dirOf(s.dirImp) {
+				if s.dirOf(j) == s.dirOf(s.dirImp) && s.extOf(j) == ".yaml" && !(j == s.broken && s.kind == "missing") {
 					visit(j)
 				}
 			}
@@ -270,6 +311,13 @@ func impCase(col *Collector, s impSpec, tag string) {
 	}()
 	cs := Case{Tags: []string{tag, fmt.Sprintf("files=%d", s.n)}, NonTrivial: true}
 	cs.Replay = fmt.Sprintf("%s dirImport=%d dotRoot=%v names=%d (file i = %q)", s.line(), s.dirImp, s.dotRoot, s.style, filepath.Join(s.dirOf(1%s.n), s.baseOf(1%s.n)))
+	if s.exts != nil {
+		cs.Replay += fmt.Sprintf(" extensions=%v dirFirst=%v", s.exts, s.dirFirst)
+		cs.Tags = append(cs.Tags, "mixed-extensions")
+	}
+	if s.kind == "dangling" {
+		cs.Tags = append(cs.Tags, "dangling-link")
+	}
 	if s.remoteFrom > 0 {
 		cs.Replay += fmt.Sprintf(" files %d.. served over HTTP and imported by URL (odd ones as JSON by Content-Type)", s.remoteFrom)
 		cs.Tags = append(cs.Tags, "url-imports")
@@ -556,6 +604,50 @@ func runC17(col *Collector, tier string, seed int64) {
 		}
 		specs = append(specs, s)
 		tags = append(tags, fmt.Sprintf("random+names%d", s.style))
+	}
+	// directory imports next to explicit imports of files of that directory, with every extension; a broken entry
+	// (unparsable / a link to nowhere) that only the directory import reaches
+	nd := 60
+	if tier == "thorough" {
+		nd = 1200
+	}
+	for k := 0; k < nd; k++ {
+		n := 3 + rng.Intn(4)
+		edges := make([][]int, n)
+		for i := 0; i < n; i++ {
+			for j := 0; j < n; j++ {
+				if rng.Intn(4) == 0 {
+					edges[i] = append(edges[i], j)
+				}
+			}
+		}
+		s := impSpec{n: n, edges: edges, broken: -1, dirImp: 1 + rng.Intn(n-1), dirFirst: rng.Intn(2) == 0}
+		if k%2 == 0 {
+			s.style = 5
+		}
+		s.exts = make([]string, n)
+		for i := 1; i < n; i++ {
+			s.exts[i] = []string{".yaml", ".yaml", ".yml", ".json", ".toml"}[rng.Intn(5)]
+		}
+		s.exts[s.dirImp] = ".yaml"
+		// the files of the imported directory are also imported explicitly by file 0 - some of them
+		for j := 1; j < n; j++ {
+			if s.dirOf(j) == s.dirOf(s.dirImp) && rng.Intn(2) == 0 {
+				s.edges[0] = append(s.edges[0], j)
+			}
+		}
+		if k%3 == 0 {
+			// a broken *.yaml entry in the imported directory
+			var cands []int
+			for j := 1; j < n; j++ {
+				if s.dirOf(j) == s.dirOf(s.dirImp) && s.exts[j] == ".yaml" {
+					cands = append(cands, j)
+				}
+			}
+			s.broken, s.kind = cands[rng.Intn(len(cands))], []string{"unparsable", "dangling"}[rng.Intn(2)]
+		}
+		specs = append(specs, s)
+		tags = append(tags, "dir+files")
 	}
 	parallel(len(specs), 16, func(i int) { impCase(col, specs[i], tags[i]) })
 	for mask := 0; mask < 64; mask++ {
